@@ -31,15 +31,20 @@ LEVEL_TEXT = ("Seeded search over (site, corruption, key type, version); "
               "shown not to alarm on valid proofs.")
 LEVEL_NOTE = ("Trusted: the interposer; tlslite's own signer is used by the "
               "byzantine peer to produce 'other transcript' signatures. "
-              "Delegated credentials are not covered (not built here).")
+              "Delegated credentials are built with tlslite's own "
+              "Credential / DelegatedCredential classes (as tests/tlstest.py "
+              "does).")
 BUDGET = {"quick": 60, "thorough": 1200}
 CHUNK = 8
 SITES = ["ske_sig", "srv_cv13", "cli_cv12", "cli_cv13", "pha", "srp",
-         "psk", "finished", "rsa_kx", "checker"]
+         "psk", "finished", "rsa_kx", "checker", "dc"]
+DC_ALGS = ["rsa_pss_pss_sha256", "ed25519", "ecdsa_secp256r1_sha256",
+           "ecdsa_secp384r1_sha384"]
 PROBES = SITES + ["flip", "empty", "trunc", "extend", "degenerate",
                   "other_scheme",
                   "other_transcript", "wrong_key", "omitted", "honest_ok",
-                  "pha_finished"]
+                  "pha_finished", "srp_no_suite", "dc_class_0",
+                  "dc_class_1", "dc_class_2", "dc_class_3"]
 COMPONENTS_REAL = ["tlslite verification code of both roles, key classes"]
 COMPONENTS_STUB = ["socket", "os.urandom", "clock", "byzantine peer"]
 ASSUMPTIONS = ["one corruption per run"]
@@ -68,6 +73,11 @@ def mutate_sig(sig, cls, ch):
     if cls == "trunc":
         return b[:-1 - ch.draw(min(8, max(1, len(b) - 1)), "m.n")]
     if cls == "extend":
+        if len(b) >= 2 and b[0] == 0x30 and b[1] == len(b) - 2 and \
+                b[1] + 3 < 0x80 and ch.draw(2, "m.inside") == 1:
+            # DER (r, s): the extra material goes INSIDE the SEQUENCE, with
+            # a consistent outer length
+            return bytearray([0x30, b[1] + 3]) + b[2:] + bytearray([2, 1, 0])
         return b + bytearray(1 + ch.draw(4, "m.n"))
     if cls == "degenerate":
         # structurally valid but degenerate values: DER (r, s) with 0 / 1,
@@ -129,6 +139,16 @@ def scenario_for(site, ch):
               "cset": {"minVersion": list(ver), "maxVersion": list(ver)},
               "sset": {"minVersion": list(ver), "maxVersion": list(ver)}}
         return sc, "s"
+    if site == "dc":
+        k = ["rsa", "ecdsa", "ed25519"][ch.draw(3, "s.key")]
+        sc = {"version": [3, 4], "flavour": "cert", "skey": k,
+              "dc": [DC_ALGS[ch.draw(4, "s.dcalg")]],
+              "cset": {"minVersion": [3, 4], "maxVersion": [3, 4],
+                       "dc_sig_algs": list(DC_ALGS),
+                       "certificate_compression_receive": []},
+              "sset": {"minVersion": [3, 4], "maxVersion": [3, 4],
+                       "certificate_compression_send": []}}
+        return sc, "c"
     if site == "srp":
         ver = [(3, 3), (3, 1), (3, 2)][ch.draw(3, "s.ver")]
         sc = {"version": list(ver),
@@ -329,6 +349,22 @@ def run(job, streams=None):
             else:
                 sc2["_wrong_key"] = [role, other]
                 fired.append(cls)
+    elif site == "srp" and sc.get("flavour") == "srp_cert" and \
+            ch.draw(3, "c.srpcls") == 1:
+        # name an SRP user in the ClientHello but offer only certificate
+        # (RSA key transport / DHE_RSA) suites: the password proof is
+        # omitted altogether
+        cls = "omitted"
+
+        def rule(msg, c):
+            if type(msg).__name__ != "ClientHello":
+                return None
+            msg.cipher_suites = [0x002f, 0x0035, 0x0033, 0x0039] + [
+                x for x in msg.cipher_suites if x in (0x00ff, 0x5600)]
+            fired.append("srp_name_without_srp_suite")
+            return [msg]
+        rules.append(rule)
+        probes["srp_no_suite"] = 1
     elif site == "srp":
         cls = "wrong_key"
         sc2["srp_pass"] = "not-the-password"
@@ -361,6 +397,53 @@ def run(job, streams=None):
             fired.append("bad_finished")
             return [msg]
         rules.append(rule)
+    elif site == "dc":
+        k = ch.draw(4, "c.dccls")
+        from tlslite.extensions import DelegatedCredentialCertExtension as DCE
+        if k == 0:
+            cls = "flip"
+
+            def rule(msg, c):
+                if type(msg).__name__ != "Certificate" or fired:
+                    return None
+                for e in msg.certificate_list[0].extensions or []:
+                    if isinstance(e, DCE):
+                        dc_ = e.delegated_credential
+                        dc_.signature = mutate_sig(dc_.signature, "flip", ch)
+                        fired.append("dc_sig_flip")
+                return [msg]
+            rules.append(rule)
+        elif k == 1 and sc["skey"] in ("rsa", "ecdsa"):
+            # delegation signed by a key that is not the certificate's
+            cls = "wrong_key"
+            sc2["dc"] = [sc["dc"][0], sc["skey"] + "_nonca"]
+            fired.append("dc_signed_by_other_key")
+        else:
+            # impostor: [victim's certificate, own certificate]; the
+            # credential is delegated by the impostor's own key (k == 2: and
+            # hung on the impostor's entry; k == 3: on the victim's entry)
+            cls = "other_transcript" if k == 3 else "wrong_key"
+            sc2["dc_extra_chain"] = {"rsa": "ecdsa", "ecdsa": "rsa",
+                                     "ed25519": "rsa"}[sc["skey"]]
+            move = k != 3
+
+            def rule(msg, c):
+                if type(msg).__name__ != "Certificate" or fired:
+                    return None
+                cl_ = msg.certificate_list
+                if len(cl_) < 2:
+                    return None
+                if move:
+                    exts = [e for e in cl_[0].extensions or []
+                            if isinstance(e, DCE)]
+                    cl_[0].extensions = [e for e in cl_[0].extensions or []
+                                         if not isinstance(e, DCE)]
+                    cl_[1].extensions = list(cl_[1].extensions or []) + exts
+                fired.append("dc_on_impostor_entry" if move else
+                             "dc_for_other_certificate")
+                return [msg]
+            rules.append(rule)
+        probes["dc_class_%d" % k] = 1
     elif site == "rsa_kx":
         cls = "wrong_key"
         sc2["_wrong_key"] = ["server", "rsa_nonca"]
